@@ -53,6 +53,9 @@ def configs(draw, tier):
             "in_handler": draw(st.booleans()),
             # a suppressing manager also swallows what is not an Exception (the cancellation thrown into a body)
             "suppress_base": draw(st.booleans()),
+            # what is decorated: an async def, or a plain def that does part of its work when CALLED and returns a
+            # coroutine for the rest (both are "coroutine functions" to their callers)
+            "fn_flavour": draw(st.sampled_from(["async", "async", "def-coro"])),
             "choices": draw(st.lists(st.integers(0, 3), max_size=40))}
 
 
@@ -125,10 +128,17 @@ def run_config(case, impl, choices=None, default="rr"):
     extra = {"none": {}, "func": {"func": "F"},
              "many": {"self": "S", "func": "F", "args": (1,), "kwds": {"k": 1}, "cm": 0, "inner": 0}}[case.get("extra", "none")]
 
-    @deco
-    async def fn(task, call, outcome, **received):
-        key = (task, call)
+    async def fn_async(task, call, outcome, **received):
         note("body-start", tuple(sorted(received.items(), key=repr)))
+        return await body(task, call, outcome)
+
+    def fn_def(task, call, outcome, **received):
+        # the synchronous part runs at call time - which must already be inside the context
+        note("body-start", tuple(sorted(received.items(), key=repr)))
+        return body(task, call, outcome)
+
+    async def body(task, call, outcome):
+        key = (task, call)
         if inside:
             flags["overlap"] = True
         inside.add(key)
@@ -146,6 +156,7 @@ def run_config(case, impl, choices=None, default="rr"):
         finally:
             inside.discard(key)
 
+    fn = deco(fn_def if case.get("fn_flavour") == "def-coro" else fn_async)
     results = {}
 
     async def task(i):
